@@ -204,7 +204,10 @@ def _r2(ctx, pkg):
     sfl = Flow(st, NF)
     clears = {f.value[1][2] for f in sfl.facts if f.kind == "call" and f.target == "clear" and f.value[1][0] == "attr" and f.value[1][1] == SELF}
     resets = {f.target: simp(f.value) for f in sfl.facts if f.kind == "attrstore" and f.extra.get("obj") == SELF}
-    rec = sfl.assigns.get("recorded_reactions", [])
+    # by role: the snapshot is the list the re-adding loop iterates
+    adds = [f for f in sfl.facts if f.kind == "call" and f.target == "add_reaction" and f.loops]
+    it0 = simp(adds[0].loops[0].iter) if adds else None
+    rec = [e for lst in sfl.assigns.values() for e in lst if it0 is not None and simp(e[0]) == it0]
     ok_rec = bool(rec) and simp(rec[0][0]) in (("binop", "Add", RL, ("attr", SELF, "_skipped_reactions")), ("binop", "Add", ("attr", SELF, "_skipped_reactions"), RL))
     seq_rec = rec[0][4] if rec else 0
     reset_after = all(f.seq > seq_rec for f in sfl.facts if (f.kind == "attrstore" and f.target in ("reaction_list", "_skipped_reactions")) or (f.kind == "call" and f.target == "clear"))
@@ -296,7 +299,9 @@ def _r4(ctx, pkg):
     union = ("binop", "BitOr", ("binop", "BitOr", R, P), ("call", ("global", "set"), (Q,), ()))
     fn = ci.methods["species"]
     fl = Flow(fn, NF)
-    a = fl.assigns.get("speclist", [])
+    # by role: the local that is returned; its first value is the membership
+    retname = next((x.id for n in ast.walk(fn) if isinstance(n, ast.Return) and n.value is not None for x in ast.walk(n.value) if isinstance(x, ast.Name) and x.id in fl.assigns), None)
+    a = fl.assigns.get(retname, []) if retname else []
     v0 = simp(a[0][0]) if a else None
     # the ORDER of the species is C09/C17's subject; here only the membership matters
     inner = v0[2][0] if v0 and v0[0] == "call" and v0[1] in (("global", "sorted"), ("global", "list"), ("global", "tuple")) and len(v0[2]) == 1 else v0
@@ -304,8 +309,10 @@ def _r4(ctx, pkg):
     ctx.check(ok, "R4", "Network.species:source", (NF, fn.lineno), "species are the members of _reactants | _products | set(_required_species)", found=show(v0)[:100] if a else "")
     fn = ci.methods["find_source_sink"]
     fl = Flow(fn, NF)
-    src = fl.assigns.get("source", [])
-    snk = fl.assigns.get("sink", [])
+    rv = [simp(f.value) for f in fl.facts if f.kind == "return"]
+    src = snk = []
+    if len(rv) == 1 and rv[0][0] == "tuple" and len(rv[0][1]) == 2:
+        src, snk = [(rv[0][1][0],)], [(rv[0][1][1],)]
     ok = bool(src) and bool(snk) and simp(src[0][0]) == ("meth", R, "difference", (P,), ()) and simp(snk[0][0]) == ("meth", P, "difference", (R,), ())
     ctx.check(ok, "R4", "Network.find_source_sink", (NF, fn.lineno), "sources = reactants - products, sinks = products - reactants",
               found=f"{show(simp(src[0][0]))[:50] if src else ''} / {show(simp(snk[0][0]))[:50] if snk else ''}")
